@@ -27,7 +27,10 @@ impl Tier {
     }
 }
 
-pub const VERIF_DIR: &str = "/verif";
+/// root of the verification tree: $VERIF_ROOT (set by ./check to its own directory), default /verif
+pub fn verif_dir() -> String {
+    std::env::var("VERIF_ROOT").unwrap_or_else(|_| "/verif".to_string())
+}
 
 #[derive(Clone, Debug)]
 pub struct Violation {
@@ -284,7 +287,7 @@ pub struct Known {
 }
 
 pub fn load_known() -> Vec<Known> {
-    let p = format!("{VERIF_DIR}/known_findings.json");
+    let p = format!("{}/known_findings.json", verif_dir());
     let txt = match std::fs::read_to_string(&p) {
         Ok(t) => t,
         Err(_) => return vec![],
@@ -342,7 +345,7 @@ pub fn finish(ctx: &Ctx, acc: &Acc, fin: Finish) -> i32 {
         }
     }
     // one replay file per distinct key (first witness in deterministic order), at most 25 lines printed
-    let _ = std::fs::create_dir_all(format!("{VERIF_DIR}/replays"));
+    let _ = std::fs::create_dir_all(format!("{}/replays", verif_dir()));
     let mut printed: Vec<String> = vec![];
     let mut seen_keys: Vec<&str> = vec![];
     let mut per_cat: BTreeMap<String, usize> = BTreeMap::new();
@@ -358,7 +361,7 @@ pub fn finish(ctx: &Ctx, acc: &Acc, fin: Finish) -> i32 {
         if *c > 4 || printed.len() >= 48 {
             continue;
         }
-        let path = format!("{VERIF_DIR}/replays/{}-{:016x}.json", ctx.prop, fnv(&v.key));
+        let path = format!("{}/replays/{}-{:016x}.json", verif_dir(), ctx.prop, fnv(&v.key));
         let body = json!({
             "property": ctx.prop, "key": v.key, "clause": v.clause, "what": v.what, "case": v.replay,
         });
@@ -419,8 +422,8 @@ pub fn finish(ctx: &Ctx, acc: &Acc, fin: Finish) -> i32 {
         "wall_s": elapsed(),
         "violations": seen_keys.len(),
     });
-    let _ = std::fs::create_dir_all(format!("{VERIF_DIR}/evidence"));
-    let path = format!("{VERIF_DIR}/evidence/{}.json", ctx.prop);
+    let _ = std::fs::create_dir_all(format!("{}/evidence", verif_dir()));
+    let path = format!("{}/evidence/{}.json", verif_dir(), ctx.prop);
     let mut f = std::fs::File::create(&path).expect("evidence file");
     f.write_all(serde_json::to_string_pretty(&ev).unwrap().as_bytes())
         .unwrap();
